@@ -52,8 +52,8 @@ def option_origin(v):
 
 
 def _task(X):
-    P, R, table, var, loop, stubs = _CTX
-    H = ReaderHarness(P, R, havoc=True, stub_content=False, unknown_iters=(1,))
+    P, R, table, var, loop, stubs = _CTX[:6]
+    H = ReaderHarness(P, R, havoc=True, stub_content=False, unknown_iters=_CTX[6] if len(_CTX) > 6 else (1,))
     H.extra_stubs = stubs
     preds = [p for p in SPEC_IDS if X in table.get(p, ())]
     row = frozenset(['diffx']) if X == 'diffx' else frozenset(table[preds[0]])
@@ -211,7 +211,7 @@ def _task(X):
     return out
 
 
-def analyse(P):
+def analyse(P, tier='quick'):
     R = ReaderRoles(P)
     table = P.fold_module_const('pydiffx.sections', 'VALID_SECTION_STATES')
     var, _ = allowed_var(R)
@@ -221,7 +221,7 @@ def analyse(P):
     if R.content_fn is None:
         raise AnalysisError('content-reading function not identified')
     global _CTX
-    _CTX = (P, R, table, var, loop, summary.stubs_for(P, summary.text_utils(P)))
+    _CTX = (P, R, table, var, loop, summary.stubs_for(P, summary.text_utils(P)), (1,) if tier == 'quick' else (0, 1, 2))
     from sa.par import pmap
     ids = list(SPEC_IDS)
     res = dict(zip(ids, pmap(_task, ids)))
